@@ -104,7 +104,12 @@ class C02(Prop):
                    "largest factor of the table: scale_qr = max(scale, sum |c_k| * max_k prod ||local||))",
                    "label predicate for operators (sum of children labels + sigma_up - sigma_down = node label) only for "
                    "charge-definite operators"]
-    known_matchers = {}
+    known_matchers = {
+        # multi-basis node [.., boson, spin, boson, ..] and a term with b^dagger (first boson) x '+' (spin) x b.. (second boson)
+        "F41": lambda spec, sig, msg: sig == "build.ambiguous_symbol_join" and
+        any(o[1] == "+" for t in spec["terms"] for o in t["ops"]) and
+        sum(s["k"] == "sho" for s in spec["model"]["sites"]) >= 2,
+    }
 
     def budget(self, tier):
         return dict(examples=1200, shards=16) if tier == "quick" else dict(examples=20000, shards=16)
@@ -163,7 +168,11 @@ class C02(Prop):
                     sig, in_lib = lib_exception_sig(e)
                     if not in_lib:
                         raise
-                    r.fail(f"build.{algo}.{sig}", f"tree {tag}: {e!r}")
+                    if isinstance(e, (AssertionError, ValueError)) and sig.endswith("@op.py:__init__") and T.ambiguous_join(ctx, terms):
+                        r.fail("build.ambiguous_symbol_join", f"tree {tag}: {e!r}: the symbols of three basis sets of one node (boson, spin, "
+                               f"boson) were joined to '... b^\\dagger + b ...', which Op parses as the single symbol 'b^\\dagger + b'")
+                    else:
+                        r.fail(f"build.{algo}.{sig}", f"tree {tag}: {e!r}")
                     dense.append(None)
                     continue
                 dense.append(got)
